@@ -222,6 +222,16 @@ func cmdCheck(args []string) int {
 				}
 				writeJSON(rpath, rf)
 			}
+			if !nativeOK && v.EnvDep {
+				// the violating path depends on a thread schedule or a map
+				// iteration order that a native run cannot be forced into
+				ok, msg := interpReplay(w, cfg, h, v)
+				rf.Native = "native run did not take the schedule (" + firstLine(rf.Native) + "); " + msg
+				writeJSON(rpath, rf)
+				if ok {
+					nativeOK = true
+				}
+			}
 			if !nativeOK && !hasNote(hr, "replay:interpreter-only") {
 				inconclusive = append(inconclusive, fmt.Sprintf("%s: counterexample for %s did not reproduce natively (%s): engine/model defect, not reported", hr.Name, v.Label, firstLine(rf.Native)))
 				continue
